@@ -89,7 +89,8 @@ class BMPWriter:
 
     def write_line(self, y: int, data: bytes) -> None:
         self.fp.seek(self.pos1 - (y + 1) * self.linesize)
-        self.fp.write(data)
+        # every line of a BMP is padded to a multiple of four bytes
+        self.fp.write(data.ljust(self.linesize, b"\0"))
 
 
 class ImageWriter:
